@@ -1,1 +1,69 @@
-From CMinx Require Import Base.Str.
+(* Properties/C18.v -- Pages go only where requested: the output directory, or stdout.
+   Only theorem statements; proofs are in Proofs/WalkFacts.v, WalkFacts2.v.  Output paths of the
+   model are component lists relative to the output directory; partial: the real file system is
+   exercised by the harness (snapshots), not modelled. *)
+From Coq Require Import String List Permutation Sorted.
+From CMinx Require Import Base.Str Model.Path Model.Naming Model.Pipeline Model.Walk
+     Proofs.WalkFacts Proofs.WalkFacts2.
+Import ListNotations.
+
+(* every component of every written / created path comes from the tree: a directory name, a
+   page name stem.rst, or index.rst *)
+Theorem C18_write_components_from_tree :
+  forall st hdrs docfn excl base top p,
+    In p (write_paths (document st hdrs docfn excl base (KDir top))
+          ++ mkdirs (document st hdrs docfn excl base (KDir top))) ->
+    forall c, In c p -> component_from_tree top c.
+Proof. exact write_components_from_tree. Qed.
+Print Assumptions C18_write_components_from_tree.
+
+(* hence no component contains a slash, is empty or is dot-dot: writes stay below the output directory *)
+Theorem C18_writes_stay_below_output :
+  forall st hdrs docfn excl base top, names_ok top = true ->
+  forall p, In p (write_paths (document st hdrs docfn excl base (KDir top))
+                  ++ mkdirs (document st hdrs docfn excl base (KDir top))) ->
+  forall c, In c p -> name_ok c = true.
+Proof. exact writes_stay_below. Qed.
+Print Assumptions C18_writes_stay_below_output.
+
+Theorem C18_single_file_paths :
+  forall st hdrs docfn excl base content,
+    (forall p, In p (write_paths (document st hdrs docfn excl base (KFile content))) -> p = [rst_name base])
+    /\ (forall p, In p (mkdirs (document st hdrs docfn excl base (KFile content))) -> p = []).
+Proof. exact file_run_paths. Qed.
+Print Assumptions C18_single_file_paths.
+
+(* without an output directory nothing is written or created *)
+Theorem C18_no_output_dir_no_writes :
+  forall st hdrs docfn excl, ws_out st = false -> forall base kind,
+    write_paths (document st hdrs docfn excl base kind) = []
+    /\ mkdirs (document st hdrs docfn excl base kind) = [].
+Proof. exact no_output_dir_no_writes. Qed.
+Print Assumptions C18_no_output_dir_no_writes.
+
+(* stdout carries exactly the non-index pages of the -o run, same order, each followed by a newline *)
+Theorem C18_stdout_equals_pages_dir :
+  forall st hdrs docfn excl, all_ok docfn -> forall base top, no_index_page top = true ->
+    prints (document (set_out st false) hdrs docfn excl base (KDir top))
+    = pages_as_printed (document (set_out st true) hdrs docfn excl base (KDir top)).
+Proof. exact stdout_equals_pages_dir. Qed.
+Print Assumptions C18_stdout_equals_pages_dir.
+
+Theorem C18_stdout_equals_pages_file :
+  forall st hdrs docfn excl, all_ok docfn -> forall base content,
+    str_eqb (stem base) index_stem = false ->
+    prints (document (set_out st false) hdrs docfn excl base (KFile content))
+    = pages_as_printed (document (set_out st true) hdrs docfn excl base (KFile content)).
+Proof. exact stdout_equals_pages_file. Qed.
+Print Assumptions C18_stdout_equals_pages_file.
+
+(* the files of one directory in sorted name order *)
+Theorem C18_files_sorted_within_dir :
+  forall st hdrs docfn excl, all_ok docfn -> ws_out st = true -> forall prefix rel ch,
+    write_paths (snd (visit_dir st hdrs docfn excl prefix rel ch))
+    = (if dir_processed st excl rel ch
+       then (rel ++ [index_rst]) :: map (fun f => rel ++ [rst_name f]) (toctree_files excl rel ch)
+       else [])
+    /\ StronglySorted (fun a b => str_leb a b = true) (toctree_files excl rel ch).
+Proof. exact files_sorted_within_dir. Qed.
+Print Assumptions C18_files_sorted_within_dir.
